@@ -180,7 +180,7 @@ sample_view = C.sample_view
 def main(seed, tier, args):
     import sys
 
-    n = args.cases or (1000 if tier == "quick" else 40000)
+    n = args.cases or (3000 if tier == "quick" else 60000)
     budget = args.budget or (100 if tier == "quick" else 900)
     rc, ev = engine.run_batch(sys.modules[__name__], seed, tier, n, budget)
     c = ev["coverage"]
